@@ -69,11 +69,11 @@ PROPS = {
     },
     "C18": {
         "engine": "tsim",
-        "parts": ["C18"],
-        "part_engines": {"C18": "tsim"},
+        "parts": ["C18", "C18e"],
+        "part_engines": {"C18": "tsim", "C18e": "dsim"},
         "level": "exploration",
         "technique": "deterministic simulation with fault injection (shuttle-controlled thread schedules over the real MonotonicTimestampGenerator with a seeded faulty wall clock as scheduling point)",
-        "rule": "each case = one shuttle execution: 2..4 threads x 2..6 next_timestamp() calls on one real MonotonicTimestampGenerator; the hooked wall clock returns a seeded walk (stall, repeated microsecond, step back up to 3 s, step/jump forward, pre-epoch) and is a scheduling point sitting between the load and the compare_exchange; schedulers: seeded random and PCT depth 2-3; workload drawn from shuttle::rand so a recorded schedule replays the whole execution. Non-trivial = operations of two threads overlapped or a clock fault fired. Distinct = distinct hashes of the observed event history.",
+        "rule": "each case = one shuttle execution: 2..4 threads x 2..6 next_timestamp() calls on one real MonotonicTimestampGenerator; the hooked wall clock returns a seeded walk (stall, repeated microsecond, step back up to 3 s, step/jump forward, pre-epoch) and is a scheduling point sitting between the load and the compare_exchange; schedulers: seeded random and PCT depth 2-3; workload drawn from shuttle::rand so a recorded schedule replays the whole execution. Non-trivial = operations of two threads overlapped or a clock fault fired. Distinct = distinct hashes of the observed event history. Part C18e (engine A, end-to-end): a real session with MonotonicTimestampGenerator (with/without warnings) on 1..3 nodes, 1..16 concurrent tasks x 1..8 writes (unprepared, prepared, batch; 1 in 4 with an explicit statement timestamp), retryable server errors, and a seeded faulty wall clock (stall, tick back, step back up to 3 s, jumps); the mock records the timestamp of every QUERY/EXECUTE/BATCH frame: generated timestamps are pairwise distinct over all attempts, an explicit statement timestamp is exactly the one on the wire, and no write arrives without a timestamp.",
         "assumptions": [
             "sequential consistency per scheduling point (one shuttle thread runs at a time; std atomics are not remodelled): weak-memory effects are out of scope",
             "scheduling points are the hooked clock read and the harness's own yields",
@@ -84,11 +84,11 @@ PROPS = {
     },
     "C19": {
         "engine": "tsim",
-        "parts": ["C19"],
-        "part_engines": {"C19": "tsim"},
+        "parts": ["C19", "C19e"],
+        "part_engines": {"C19": "tsim", "C19e": "dsim"},
         "level": "exploration",
         "technique": "deterministic simulation with fault injection (shuttle-controlled producer/consumer schedules over the real merge channel with hook-supplied scheduling points between every shared-state operation)",
-        "rule": "each case = one shuttle execution of a producer thread (modify: push unique id / no-op / retract; drop sender early, late or after an acknowledged sentinel) and a consumer thread (recv under block_on, recv cancelled after one poll and restarted, try_recv, early receiver drop) on one real merge_channel; scheduling points from cfg(scylla_verif) hooks between the flag loads/stores, slot critical section, notify_one, enable() and take(); schedulers: seeded random and PCT depth 2-3. Non-trivial = producer and consumer operations overlapped or a fault (cancel, retract, drop race) fired. Distinct = distinct hashes of the observed event history incl. the scheduling sites hit.",
+        "rule": "each case = one shuttle execution of a producer thread (modify: push unique id / no-op / retract; drop sender early, late or after an acknowledged sentinel) and a consumer thread (recv under block_on, recv cancelled after one poll and restarted, try_recv, early receiver drop) on one real merge_channel; scheduling points from cfg(scylla_verif) hooks between the flag loads/stores, slot critical section, notify_one, enable() and take(); schedulers: seeded random and PCT depth 2-3. Non-trivial = producer and consumer operations overlapped or a fault (cancel, retract, drop race) fired. Distinct = distinct hashes of the observed event history incl. the scheduling sites hit. Part C19e (engine A, end-to-end): a real session on 1..4 nodes (+1..3 spare nodes), 0..3 tasks calling refresh_metadata() at seeded instants while 1..14 seeded events happen: node joins / leaves / is replaced under the same address with a new host id / changes rack, each with or without the corresponding EVENT, event floods (10..73 STATUS_CHANGE/SCHEMA_CHANGE events), control-connection resets; system tables paged by 0..2 rows; oracles: every refresh_metadata() call is answered (Ok or Err) within 240 virtual s, and after faults stop and one successful refresh the published ClusterState node set (host ids) equals the mock cluster's.",
         "assumptions": [
             "sequential consistency per scheduling point; tokio::sync::Notify is real code but its internals have no extra scheduling points",
             "oracles: concatenation of received values == merged-and-not-retracted ids in order, each once; None only after the sender is gone and the last value taken; a consumer parked forever while a value is pending or the sender is gone = shuttle deadlock = lost wake-up; modify errs when the receiver's drop completed before the call and succeeds when the drop had not begun when it returned (the racing window is not judged)",
@@ -165,5 +165,18 @@ PROPS = {
             "a failed call leaves the keyspace unconstrained until the next success (documented behaviour); a valid but non-existent name may be reported Ok when no pool holds a connection (counted as use_ok_without_any_connection, not judged)",
         ],
         "expected_probes": ["constrained_frames_checked", "Rst", "NodeRestart", "Topology", "invalid_names_tried"],
+    },
+    "C15": {
+        "engine": "dsim",
+        "parts": ["C15e"],
+        "part_engines": {"C15e": "dsim"},
+        "level": "exploration",
+        "technique": "deterministic simulation with fault injection (tablet feedback through response payloads under server-side tablet migrations and topology maintenance; reference model = latest-wins list of tablets sent)",
+        "rule": "part C15e (engine A, end-to-end): 2..5 nodes x 1..4 shards, a tablet keyspace whose server-side layout (1..8 tablets over the whole ring, rf 1..3, replicas = (node, shard)) is changed 0..5 times during the run (tablet moved, split, or merged with its neighbour); 10..80 sequential executions of a prepared statement over a small key pool; the mock attaches a tablets-routing-v1 payload exactly when the request reached a non-replica node/shard (as ScyllaDB does) and keeps the reference model of what it has sent (insert = delete overlapping, then add); optionally a node is removed (REMOVED_NODE event) at the end. Non-trivial = at least one payload was sent. Distinct = distinct (poll-sequence hash, event-log hash).",
+        "assumptions": COMMON_ASSUMPTIONS + [
+            "oracles: (1) a request whose token is covered by a tablet the client had learnt before it was submitted goes to a replica node of that tablet and, when the mock sees a pool connection to that shard, on the tablet's shard; (2) after quiescence ClusterState::get_token_endpoints at every boundary +-1 of every sent or server-side tablet and at the extremes equals the reference model (replica host ids and shards in order; nothing where nothing is known or where a later tablet overlapped or the removed node was a replica)",
+            "requests are sequential so that 'most recently learnt' is well defined; feedback is given 20 virtual ms to be applied by the cluster worker",
+        ],
+        "expected_probes": ["tablet_payload_sent", "routing_checked", "lookups_checked"],
     },
 }
